@@ -270,9 +270,9 @@ def raiser(x=None, family='plain', y='d_y', child=None, bad=None):
   rec = record('raiser', {'x': x, 'family': family, 'y': y, 'child': child, 'bad': bad})
   if RAISE_ENABLED and family != 'none':
     # a failing callable may well have modified its (built) arguments before it fails
-    if isinstance(child, list):
+    if type(child) is list:
       child.append('touched-before-failing')
-    elif isinstance(child, dict):
+    elif type(child) is dict:
       child['touched-before-failing'] = 1
     exc = FAMILIES[family]()
     LAST_RAISED.append(exc)
@@ -460,9 +460,11 @@ class Mode(enum.Enum):
 def mutating(x=None, child=None):
   """Modifies its container argument in place while being built."""
   rec = record('mutating', {'x': x, 'child': list(child) if isinstance(child, list) else child})
-  if isinstance(child, list):
+  # only exact list/dict: those are the containers fdl.build re-creates; any other object (a
+  # dict subclass, a set, ...) is handed to the callable by reference by design
+  if type(child) is list:
     child.append('mutated-by-callee')
-  elif isinstance(child, dict):
+  elif type(child) is dict:
     child['mutated-by-callee'] = 1
   return rec
 
